@@ -11,7 +11,8 @@ THEOREMS = ['C06_paraboloid_stigmatic', 'C06_conic_mirror_stigmatic', 'C06_conic
             'C06_aplanatic_stigmatic', 'C06_sphere_centre_mirror', 'C06_sphere_centre_refract',
             'C06_sphere_centre_mirror_trace', 'C06_std_distance_paraboloid_axial', 'C06_std_distance_from_centre',
             'C06_plane_distance_exact', 'C06_refract_char', 'C06_opd_image_to_xp_at_centre',
-            'C06_equal_paths_zero_opd', 'C06_zero_opd_strehl_one', 'C06_strehl_spec_const_phase']
+            'C06_equal_paths_zero_opd', 'C06_zero_opd_strehl_one', 'C06_strehl_spec_const_phase',
+            'C06_std_distance_far_focus_regression', 'C06_conic_mirror_from_focus']
 COQ_TARGETS = ['Model/Trace.vo', 'Model/M_C06.vo', 'Lemmas/L_C06_stigmatic.vo', 'Lemmas/L_C06_wavefront.vo']
 TRUSTED_BASE = BASE_TRUSTED + [
     'hand model coq/Model/Trace.v (order of the kernels inside Surface._trace_real / SurfaceGroup.trace) and coq/Model/M_C06.v '
@@ -27,7 +28,7 @@ RULE = ('eleven closed-form stigmatic configurations (paraboloid at infinity, in
         '(built with other conic/radius/thickness/index, incl. flat-first, then set_conic/set_radius/set_thickness/set_index); the axial field carries random vignetting factors (vx, vy independent, incl. 0 and unequal) in 40% of the instances; seeded radii 15..600 mm, n in [1.3,4], apertures from f/8 to f/0.6 '
         '(NA to 0.9), 16-24 pupil points incl. the rim; FFTPSF sampled with every parity of num_rays, grid_size (odd grids 65..255) and of their difference; non-trivial = instance whose marginal ray is finite at the image')
 PARTIAL = [
-    'ellipsoid/hyperboloid/plano-hyperbolic/aplanatic theorems take "the hit point lies on the vertex sheet of the conic" as a hypothesis (the exact hit distance '
+    'conic_mirror_from_focus derives the vertex sheet from the distance kernel itself (sheet filter, dc4c87d); the plano-hyperbolic/aplanatic theorems and conic_mirror_stigmatic still take "the hit point lies on the vertex sheet of the conic" as a hypothesis (the exact hit distance '
     'returned by k_std_distance is proved only for the paraboloid at infinity and for rays through the centre of curvature); the correspondence run checks it numerically',
     'the theorems are over exact reals: "to numerical precision" is carried by the correspondence runs and the oracle with the stated tolerance',
     'equal_paths_zero_opd covers the axial field point (tilt term zero); zero_opd_strehl_one is about the DC pixel of the model, not about np.fft',
@@ -445,6 +446,23 @@ def system_checks(ctx):
     resD = {'name': 'virtual-image-ray-clauses', 'n': 0, 'nontrivial': 0, 'samples': [], 'disagreements': [],
             'histogram': {'vignetted': 0, 'reached_by_edit_history': 0}}
     rngD = _random.Random(ctx.seed * 977 + 6)
+    # regression of the fixed finding conic-wrong-sheet: R = 11, k = -9/4, object at z = -22, NA 0.6 (the marginal
+    # ray (0, 0.6, 0.8) must meet the vertex sheet after t = 55, not the second sheet after t = 5)
+    reg = _wrong_sheet_regression_cfg()
+    bad = c06_lib.oracle_virtual(reg, rngD, nr)
+    resD['n'] += nr
+    if not bad:
+        o = c06_lib.build(reg)
+        r = c06_lib.trace_pencil(o, [(0.0, 1.0)])[0]
+        t = math.dist(r[0][:3], r[1][:3])
+        if not abs(t - 55.0) <= 1e-9:
+            bad = [{'kind': 'hit-on-other-sheet', 'pupil': [0.0, 1.0], 'hit': r[1][:3], 'launch_direction': r[0][3:6],
+                    'distance': t, 'expected_distance': 55.0}]
+    if bad:
+        resD['disagreements'].append(_witness(reg, bad))
+    else:
+        resD['nontrivial'] += 1
+    resD['histogram']['regression_cases'] = 1
     for name in c06_lib.VIRTUAL_CONFIGS:
         for _ in range(ctx.n(10, 60)):
             cfg = c06_lib.gen_config(rngD, name)
@@ -492,6 +510,8 @@ def matches_finding(w, f):
     """image-surface-refracts: ONLY an immersed-image configuration whose image surface is left with air behind
     it, whose marginal ray exceeds the critical angle there (n sin U' > 1), and whose every complaint is a NaN
     direction at the image surface or the NaN wavefront / Strehl that follows from it"""
+    if f.get('status', 'open') != 'open':      # a fixed finding suppresses nothing: its recurrence is a regression
+        return False
     if f.get('id') == 'conic-wrong-sheet':
         return _matches_wrong_sheet(w)
     if f.get('id') != 'image-surface-refracts':
@@ -553,16 +573,23 @@ def _replay_cfg():
     return cfg
 
 
+def _wrong_sheet_regression_cfg():
+    import c06_lib
+    cfg = dict(REPLAY_WRONG_SHEET)
+    R, e = cfg['params']['R'], cfg['params']['e']
+    cfg['spec'] = c06_lib._spec(-R / (1 - e), [c06_lib._std(R, -22.0, 'mirror', -e * e, True)],
+                                ['objectNA', 0.6], True)
+    return cfg
+
+
 def replay_finding(ctx, f):
     import random
     import c06_lib
     if f.get('id') == 'conic-wrong-sheet':
         # R = 11, e = 3/2 (k = -9/4), object at the far focus z = -22, ray (0, 3/5, 4/5): the vertex sheet is met at
-        # z = +22 after t = 55, the second sheet at z = -18 after t = 5; the code returns t = 5
-        cfg = dict(REPLAY_WRONG_SHEET)
+        # z = +22 after t = 55, the second sheet at z = -18 after t = 5; the code returned t = 5 before dc4c87d
+        cfg = _wrong_sheet_regression_cfg()
         R, e = cfg['params']['R'], cfg['params']['e']
-        cfg['spec'] = c06_lib._spec(-R / (1 - e), [c06_lib._std(R, -22.0, 'mirror', -e * e, True)],
-                                    ['objectNA', 0.6], True)
         bad = c06_lib.oracle_virtual(cfg, random.Random(1))
         w = {'config': 'hyperboloid_far', 'params': cfg['params'], 'violations': bad}
         # below the regime (NA 0.3) the same mirror must be perfect
